@@ -122,6 +122,8 @@ func settingsOf(o *options.Options) []cfgSetting {
 	add("session-store-type", o.Session.Type)
 	add("redis-connection-url", o.Session.Redis.ConnectionURL)
 	add("session-cookie-minimal", o.Session.Cookie.Minimal)
+	add("allow-query-semicolons", o.AllowQuerySemicolons)
+	add("signature-key", o.SignatureKey)
 	add("proxy-prefix", o.ProxyPrefix)
 	add("ping-path", o.PingPath)
 	add("ready-path", o.ReadyPath)
@@ -180,6 +182,7 @@ var documentedDefaults = map[string]interface{}{
 	"authenticated-emails-file": "", "skip-jwt-bearer-tokens": false, "extra-jwt-issuers": []string{}, "force-https": false,
 	"redirect-url": "", "htpasswd-file": "", "htpasswd-user-group": []string{}, "session-store-type": "cookie",
 	"redis-connection-url": "", "session-cookie-minimal": false,
+	"allow-query-semicolons": false, "signature-key": "",
 	"proxy-prefix": "/oauth2", "ping-path": "/ping", "ready-path": "/ready", "gcp-healthchecks": false, "show-debug-on-error": false,
 	"banner": "", "footer": "", "request-logging": true, "auth-logging": true, "silence-ping-logging": false,
 	"insecure-oidc-skip-nonce": true, "insecure-oidc-allow-unverified-email": false,
@@ -392,6 +395,8 @@ func cfgPathProps(path string) []string {
 		{".ForceJSONErrors", []string{"C01"}},
 		{".ForceHTTPS", []string{"C06", "C18"}},
 		{".ProxyPrefix", []string{"C01", "C03", "C06", "C15"}},
+		{".AllowQuerySemicolons", []string{"C17"}},
+		{".SignatureKey", []string{"C17"}},
 	}
 	for _, t := range table {
 		if strings.HasPrefix(path, t.prefix) {
